@@ -338,7 +338,6 @@ func (o *ovsdbClient) connect(ctx context.Context, reconnect bool) error {
 		}
 	}
 
-	go o.handleDisconnectNotification()
 	if o.options.inactivityTimeout > 0 {
 		o.handlerShutdown.Add(1)
 		go o.handleInactivityProbes(o.rpcClient, o.stopCh, o.trafficSeen)
@@ -354,6 +353,8 @@ func (o *ovsdbClient) connect(ctx context.Context, reconnect bool) error {
 			close(eventStopChan)
 		}(db)
 	}
+	// last: it waits for the handlers above when the connection drops
+	go o.handleDisconnectNotification()
 
 	o.connected = true
 	return nil
